@@ -25,14 +25,14 @@ CONV_CLASS = {
     'cf1d': 'CFGrid1D', 'cf2d': 'CFGrid2D', 'shoc_simple': 'ShocSimple',
     'shoc_standard': 'ShocStandard', 'ugrid': 'UGrid',
 }
-DTYPES = ['f8', 'f4', 'i4', 'i2']
+DTYPES = ['f8', 'f4', 'i4', 'i2', 'i8']
 
 
 # ----------------------------------------------------------------------------------------
 # generation
 # ----------------------------------------------------------------------------------------
 
-_STYLE = {'digits': 9, 'near': False}
+_STYLE = {'digits': 9, 'near': False, 'pacific': False}
 
 
 def _r(x):
@@ -46,6 +46,8 @@ def _coord(rng, lo, hi):
         # around (0, 0): magnitudes below 10, where fixed-decimal rounding bites hardest
         span = hi - lo
         lo, hi = -0.35 * min(span, 12), 0.35 * min(span, 12)
+    elif _STYLE.get('pacific') and lo >= 90:
+        lo, hi = 176.0, 195.0      # a 0..360 (Pacific) grid: cells on both sides of, and wholly beyond, 180 degrees east
     return _r(rng.uniform(lo, hi))
 
 
@@ -116,6 +118,8 @@ def _gen_vars(rng, kinds, max_vars, extra_pool, *, allow_perm=True, name_pool=No
         else:
             fill = rng.choice([None, None, '_FillValue', 'missing_value'])
             fillv = rng.choice([-999, -1, 32767 if dtype == 'i2' else 99999]) if fill else None
+            if dtype == 'i8' and fill and rng.random() < 0.5:
+                fillv = -9000000000
         perm = None
         if allow_perm and rng.random() < 0.35:
             perm = rng.random()  # seed for a permutation decided in World (deterministic)
@@ -218,9 +222,10 @@ def gen_world(rng, *, convs=CONVS, max_n=5, max_faces=10, max_vars=5, allow_hole
               with_time=None, allow_perm=True, allow_coords_as_vars=True,
               time_units_pool=None, materialise=None, min_vars=1):
     conv = rng.choice(list(convs))
-    style = rng.choice(['r9_far', 'r9_far', 'full_far', 'full_near'])
-    _STYLE['digits'] = 9 if style == 'r9_far' else None
+    style = rng.choice(['r9_far', 'r9_far', 'full_far', 'full_near', 'r9_pacific'])
+    _STYLE['digits'] = 9 if style.startswith('r9') else None
     _STYLE['near'] = style == 'full_near'
+    _STYLE['pacific'] = style == 'r9_pacific'
     spec = {'conv': conv, 'attrs': {'title': 'generated world'}, 'coord_style': style}
     extra_pool = []
     if with_time is None:
@@ -297,8 +302,14 @@ def gen_world(rng, *, convs=CONVS, max_n=5, max_faces=10, max_vars=5, allow_hole
         has_edges = rng.random() < 0.6
         tables = []
         if has_edges:
-            tables.append('edge_node')
-            tables += [t for t in ('face_edge', 'edge_face', 'face_face') if rng.random() < 0.45]
+            if rng.random() < 0.75:
+                tables.append('edge_node')
+                tables += [t for t in ('face_edge', 'edge_face', 'face_face') if rng.random() < 0.45]
+            else:
+                # no edge-node table: the edge numbering is the one the face-edge table uses
+                # (the edge-face table carries the edge dimension, so the dimension exists in the file)
+                tables += ['face_edge', 'edge_face']
+                tables += [t for t in ('face_face',) if rng.random() < 0.5]
         elif rng.random() < 0.4:
             tables.append('face_face')
         maxn = max(len(f) for f in faces)
@@ -307,6 +318,8 @@ def gen_world(rng, *, convs=CONVS, max_n=5, max_faces=10, max_vars=5, allow_hole
         spec.update({
             'nodes': nodes, 'faces': faces, 'edges': edges if has_edges else None,
             'start_index': rng.choice([0, 1]), 'fill_repr': fill_repr,
+            # start_index is a per-variable attribute: tables of one mesh may legally differ
+            'start_index_of': {t: rng.choice([0, 1]) for t in tables} if rng.random() < 0.3 else {},
             'transposed': sorted(t for t in ['face_node'] + tables if rng.random() < 0.25),
             'tables': tables, 'edge_dim_attr': has_edges and rng.random() < 0.6,
             'face_dim_attr': rng.random() < 0.6 or 'face_node' in [],
@@ -465,8 +478,10 @@ class World:
                 r.shuffle(dims)
             gsize = int(numpy.prod(sshape)) if kind else 1
             etotal = int(numpy.prod(eshape)) if eshape else 1
-            wide = v['dtype'] in ('f8', 'i4')
+            wide = v['dtype'] in ('f8', 'i4', 'i8')
             base = (vi + 1) * 100000 if wide else (vi + 1)
+            if v['dtype'] == 'i8':
+                base += 3000000000 * (vi + 1)      # values that do not fit 32 bits (exact in float64)
             shift = 50000 if wide else gsize * etotal + 3
             info = dict(v)
             info.update({'sdims': sdims, 'sshape': sshape, 'edims': edims, 'eshape': eshape,
@@ -805,12 +820,15 @@ class World:
                  'face_edge': ('nMesh2_face', 'nMaxMesh2_face_nodes'), 'edge_face': ('nMesh2_edge', 'Two'),
                  'face_face': ('nMesh2_face', 'nMaxMesh2_face_nodes')}
 
+    def start_index(self, table):
+        return (self.spec.get('start_index_of') or {}).get(table, self.spec['start_index'])
+
     def conn_fill(self):
         return {'i2': 9999, 'i4': 999999, 'i8': 999999}[self.spec['conn_dtype']]
 
     def _conn_array(self, table, rows):
         s = self.spec
-        si = s['start_index']
+        si = self.start_index(table)
         fill = self.conn_fill()
         has_missing = any(x is None for r in rows for x in r)
         repr_ = s['fill_repr']
@@ -840,7 +858,7 @@ class World:
         }
         if s['face_dim_attr'] or 'face_node' in s['transposed']:
             mesh_attrs['face_dimension'] = 'nMesh2_face'
-        if s['edge_dim_attr'] or any(t in s['transposed'] for t in ('edge_node', 'edge_face')):
+        if s['edge_dim_attr'] or 'edge_node' not in s['tables'] or any(t in s['transposed'] for t in ('edge_node', 'edge_face')):
             if s['edges'] is not None:
                 mesh_attrs['edge_dimension'] = 'nMesh2_edge'
         data_vars['Mesh2'] = None  # placeholder keeps variable order; filled in below
@@ -943,6 +961,8 @@ def shrink_world_candidates(spec):
         for t in list(spec['tables']):
             if t == 'edge_node' and len(spec['tables']) > 1:
                 continue
+            if 'edge_node' not in spec['tables'] and t in ('face_edge', 'edge_face'):
+                continue      # these two define the edge numbering / carry the edge dimension
             s = copy.deepcopy(spec)
             s['tables'].remove(t)
             s['transposed'] = [x for x in s['transposed'] if x != t]
@@ -960,4 +980,8 @@ def shrink_world_candidates(spec):
         if spec['start_index']:
             s = copy.deepcopy(spec)
             s['start_index'] = 0
+            yield s
+        if spec.get('start_index_of'):
+            s = copy.deepcopy(spec)
+            s['start_index_of'] = {}
             yield s
